@@ -23,7 +23,7 @@ HEADER = (
     "Require Import PV.Core.Obj PV.Core.Val PV.Core.Subst PV.Core.C14Run.\n"
 )
 
-LAWS = ["idem_self", "refl", "sym", "trans", "eq_hash", "merged", "idem", "never_identity", "comm", "assoc", "no_nesting",
+LAWS = ["walk_covers_subst", "idem_self", "refl", "sym", "trans", "eq_hash", "merged", "idem", "never_identity", "comm", "assoc", "no_nesting",
         "members", "accepts", "subst_closed", "subst_elim", "subst_comm", "normal_fix"]
 
 
@@ -70,6 +70,32 @@ def has_annotated_union(s):
     if s and s[0] == "annot" and isinstance(s[1], list) and s[1] and s[1][0] in ("union", "unite"):
         return True
     return any(has_annotated_union(x) for x in s)
+
+
+def term_typevars(t):
+    """type-variable ids occurring in an encoded value term (bounds / constraints of a TypeVar are not searched,
+    as in Core/Subst.v `occurs`)"""
+    out = set()
+    if isinstance(t, tuple) and t and t[0] == "VNode":
+        tag, kids = t[1], t[2]
+        if isinstance(tag, tuple) and tag[0] == "TTypeVar":
+            out.add(int(tag[1]) - 1)
+            return out
+        for k in kids:
+            out |= term_typevars(k)
+    elif isinstance(t, tuple) and t and t[0] == "VUnion":
+        for k in t[1]:
+            out |= term_typevars(k)
+    return out
+
+
+def tv_only_in_td_extra(s):
+    """a spec with a type variable inside the extra-items type of a TypedDict"""
+    if not isinstance(s, list):
+        return False
+    if s and s[0] == "td" and len(s) == 4 and s[2] is not None and has_kind(s[2], ("tv",)):
+        return True
+    return any(tv_only_in_td_extra(x) for x in s)
 
 
 def impl_case(case):
@@ -139,7 +165,19 @@ def impl_case(case):
     if not has_kind(case["a"], ("tv", "class")) and not has_raw_union(case["a"]):
         laws["subst_closed"] = sa == a
     if not has_kind([x for _, x in case["m"]], ("tv",)):
-        laws["subst_elim"] = not any(isinstance(x, V.TypeVarValue) and x.typevar in m for x in sa.walk_values())
+        # occurrences are read off the encoded term (walk_values does not reach every substituted field)
+        try:
+            left = term_typevars(norm(enc_val(sa, cx)))
+            laws["subst_elim"] = not (left & {i for i, _ in case["m"]})
+        except OutOfFragment:
+            pass
+    # every type variable that substitution can reach is also reached by walk_values (Signature caches
+    # `all_typevars` from walk_values); known asymmetry: TypedDictValue.walk_values skips extra_keys
+    try:
+        seen_by_walk = {U.TYPEVARS.index(x.typevar) for x in a.walk_values() if isinstance(x, V.TypeVarValue) and x.typevar in U.TYPEVARS}
+        laws["walk_covers_subst"] = term_typevars(norm(terms["a"])) <= seen_by_walk
+    except OutOfFragment:
+        pass
     rng_specs = [x for _, x in case["m"]]
     if not has_raw_union(rng_specs) and not has_annotated_union(rng_specs):  # the map's range is in normal form
         laws["subst_comm"] = s_u == u_s
@@ -222,6 +260,8 @@ def run(tier: str, replay: str | None = None):
 
     # model
     model_ok = not any("build failed" in b or "forbidden" in b for b in proof.broken)
+    if not model_ok:  # a proof no longer checks: the model itself may still build, so that the oracle keeps its reference
+        model_ok = lib.coq_make(["theories/Core/C14Run.vo"])[0]
     results = None
     idx = [i for i, t in enumerate(terms) if t is not None]
     if model_ok:
@@ -284,6 +324,11 @@ def run(tier: str, replay: str | None = None):
                                     break
                 elif g["annotated_unreachable"] and set(bad) <= {"idem", "idem_self", "never_identity", "merged", "normal_fix", "members", "subst_comm", "subst_closed", "comm", "assoc"}:
                     fid = "C14-annotated-unreachable"
+                    if fid in findings:
+                        rep.known(fid, findings[fid]["what"])
+                        attributed = True
+                elif set(bad) <= {"walk_covers_subst"} and tv_only_in_td_extra(cases[i]["a"]):
+                    fid = "C14-walk-values-skips-extra-keys"
                     if fid in findings:
                         rep.known(fid, findings[fid]["what"])
                         attributed = True
